@@ -14,16 +14,14 @@ Theorem C04_inference_is_a_prestep : forall e o u t r hp,
   normalize_split e (no_infer o) t = Ok (NSplit r hp).
 Proof. exact normalize_is_prestep. Qed.
 
-(* order of query items: the query stage of normalize_url (per-item unquoting, per-item filtering, per-item
-   quoting when quoted=True, then sorted() with the key (name, value or "", has-a-value)) gives the same list
-   for any two orderings of the same items -- the key is injective, so stability never shows *)
-Theorem C04_query_order_irrelevant : forall (o : n_opts) (df : option (list str)) (l1 l2 : list qitem),
-  Permutation l1 l2 ->
-  let stage l :=
-    let qsl := filter (fun it => negb (should_strip_query_item o df it)) (safely_unquote_qsl l) in
-    let qsl := if n_quoted o then safely_quote_qsl qsl else qsl in
-    sort_stable qsl_sort_leb qsl in
-  stage l1 = stage l2.
+(* order of query items: normalize_core computes its query as finish_query_items o (kept_query_items o df q)
+   (per-item unquoting and filtering, per-item quoting when quoted=True, then sorted() with the key
+   (name, value or "", has-a-value)); with sort_query two queries holding the same items in any order give the
+   same result -- the key is injective, so the stability of the sort never shows *)
+Theorem C04_query_order_irrelevant : forall (o : n_opts) (df : option (list str)) (q1 q2 : str),
+  sort_query o = true -> q1 <> [] -> q2 <> [] ->
+  Permutation (safe_qsl_iter q1) (safe_qsl_iter q2) ->
+  finish_query_items o (kept_query_items o df q1) = finish_query_items o (kept_query_items o df q2).
 Proof. exact normalize_query_order_irrelevant. Qed.
 
 Print Assumptions C04_inference_is_a_prestep.
